@@ -64,7 +64,7 @@ def refined(grid, fx, fy, fz):
 
 
 def run_once(nsrc, nfreq, kind, max_workers, file_dir=None, tqdm=True,
-             prefix=None, repeat=True, variant='same'):
+             prefix=None, repeat=True, variant='same', hop=None):
     """One complete run of the real Simulation code.  Returns observations
     (and the scheduler if a virtual pool was used)."""
     import emg3d
@@ -97,6 +97,10 @@ def run_once(nsrc, nfreq, kind, max_workers, file_dir=None, tqdm=True,
         with warnings.catch_warnings():
             warnings.simplefilter('ignore')
             sim.compute()
+            if hop:
+                # the working directory changes while the simulation lives
+                # (file_dir may have been given as a relative path)
+                os.chdir(hop)
             obs['efields'] = [np.array(sim.get_efield(s, f).field)
                               for s, f in sim._srcfreq]
             obs['synthetic'] = np.array(sim.data.synthetic.data)
@@ -199,11 +203,26 @@ def case(c):
     # the file directory carries dots in its path (a legal path)
     fdir = os.path.join(tmp, 'run.v1.d') if tmp else None
 
+    # with the plain backend the file directory is given as a RELATIVE path
+    # and the working directory changes after the first computation
+    rel = bool(tmp) and not c['tqdm']
+    cwd0 = os.getcwd()
+
     def run(prefix):
         if tmp:
             shutil.rmtree(fdir, ignore_errors=True)
-        obs, sched = run_once(nsrc, nfreq, kind, k, fdir, c['tqdm'], prefix,
-                              repeat=not c.get('full'), variant=variant)
+        fd, hop = fdir, None
+        if rel:
+            os.chdir(tmp)
+            fd = 'run.v1.d'
+            hop = os.path.join(tmp, 'elsewhere')
+            os.makedirs(hop, exist_ok=True)
+        try:
+            obs, sched = run_once(nsrc, nfreq, kind, k, fd, c['tqdm'],
+                                  prefix, repeat=not c.get('full'),
+                                  variant=variant, hop=hop)
+        finally:
+            os.chdir(cwd0)
         return sched, obs
     try:
         if c.get('full'):
